@@ -123,12 +123,13 @@ impl<T> Executor<T> {
 
 //@ slice src/sources/futures.rs / impl Drop for Executor<T> / fn drop :: after <<let active_tasks = self.state.active_tasks.borrow_mut().take().unwrap();>> props=C10 name=Executor::drop::wake_all_then_drain
 //@ rw R20 1 <<for (_, task) in active_tasks>> => <<for task in lit: slab_into_values(active_tasks)>>
-//@ rw R25 1 <<std::panic::catch_unwind(|| waker.wake()).ok();>> => <<wake_catching_unwind(waker);>>
+//@ rw R25 1 <<std::panic::catch_unwind(||>> => <<{>>
+//@ rw R25 1 <<).ok();>> => <<; }>>
 //@ sig
     /// S1 slice of `impl Drop for Executor`: everything after the table has been taken -- the loop that wakes every parked
     /// task and the loop that drops every queued runnable. `active_tasks` (the taken table) becomes a parameter. R20: the
     /// loop head over a Slab's `IntoIter` (pairs) becomes a loop over the Vec of its values; R25:
-    /// `catch_unwind(|| waker.wake()).ok()` becomes a stand-in that wakes and swallows a panic.
+    /// `catch_unwind(|| E).ok();` becomes `{ E; }` (a panic of E is assumed away).
     #[verifier::exec_allows_no_decreases_clause]
     fn drop_wake_all_then_drain(&self, active_tasks: Slab<Active<T>>)
 //@ spec
@@ -265,12 +266,11 @@ pub uninterp spec fn w_result_delivered<T>(v: T) -> bool;
 //@ region executor_drop_specs props=C10
 /// this waker has been woken (monotone witness)
 pub uninterp spec fn w_task_woken(w: Waker) -> bool;
-/// Rule R25: `std::panic::catch_unwind(|| waker.wake()).ok();` becomes a call of this stand-in. ASSUMED: it wakes the
-/// waker; a panic of the waker is swallowed (the real expression discards the Result).
-#[verifier::external_body]
-fn wake_catching_unwind(w: Waker)
-    ensures w_task_woken(w),
-{ std::panic::catch_unwind(|| w.wake()).ok(); }
+/// Rule R25: `std::panic::catch_unwind(|| E).ok();` becomes the block `{ E; }` -- whatever E is, so that an edit of E is
+/// judged by the proof. ASSUMED: E does not panic (the real expression swallows a panic of E and goes on; under partial
+/// correctness the inlined form loses exactly that path). `Waker::wake` leaves the witness that the task has been woken.
+pub assume_specification [Waker::wake] (w: Waker)
+    ensures w_task_woken(w);
 /// the values of a slab in iteration order (ghost)
 pub uninterp spec fn vals_of<T>(s: Slab<T>) -> Seq<T>;
 pub open spec fn slab_values_of<T>(s: Slab<T>, v: Seq<T>) -> bool { v == vals_of(s) }
